@@ -342,6 +342,22 @@ pub fn w_coll(depth: u32) -> BoxedStrategy<WVal> {
         .boxed()
 }
 
+/// a small collection for wide sets / many members
+fn w_small_coll() -> BoxedStrategy<WVal> {
+    let leaf = prop_oneof![any_i32().prop_map(|i| WVal::Scalar { tag: 0x21, body: i.to_be_bytes().to_vec() }), octets(6).prop_map(|body| WVal::Scalar { tag: 0x44, body })];
+    let inner = (member_name(), leaf.clone()).prop_map(|(name, v)| WVal::Coll(vec![WAttr { name, values: vec![v] }]));
+    vec((member_name(), prop_oneof![3 => leaf, 1 => inner]), 0..=2).prop_map(|ms| WVal::Coll(dedup_names(ms.into_iter().map(|(name, v)| WAttr { name, values: vec![v] }).collect()))).boxed()
+}
+
+/// Wide shapes a real printer produces (media-col-database, long keyword lists): one attribute
+/// with 100-300 values (scalars or small collections), or a collection with 100-300 members.
+pub fn w_wide_attr() -> BoxedStrategy<WAttr> {
+    let many_colls = (attr_name(), 100usize..300).prop_flat_map(|(name, n)| (Just(name), vec(w_small_coll(), n))).prop_map(|(name, values)| WAttr { name, values });
+    let many_scalars = (attr_name(), 100usize..300).prop_flat_map(|(name, n)| (Just(name), vec(w_leaf(), n))).prop_map(|(name, values)| WAttr { name, values });
+    let many_members = (attr_name(), 100usize..300, w_leaf()).prop_map(|(name, n, v)| WAttr { name, values: vec![WVal::Coll((0..n).map(|i| WAttr { name: format!("m{i}").into_bytes(), values: vec![v.clone()] }).collect())] });
+    prop_oneof![2 => many_colls, 1 => many_scalars, 1 => many_members].boxed()
+}
+
 pub fn w_attr(depth: u32) -> BoxedStrategy<WAttr> {
     let nvals = prop_oneof![5 => Just(1usize), 2 => Just(2usize), 2 => 3usize..=5];
     (attr_name(), nvals.prop_flat_map(move |n| vec(w_val(depth), n))).prop_map(|(name, values)| WAttr { name, values }).boxed()
@@ -353,9 +369,15 @@ pub fn w_group(max_depth: u32) -> BoxedStrategy<WGroup> {
 }
 
 pub fn w_msg(max_depth: u32) -> BoxedStrategy<WMsg> {
-    (any::<u16>(), any::<u16>(), any::<u32>(), count(0, 3, 6).prop_flat_map(move |n| vec(w_group(max_depth), n)), payload())
-        .prop_map(|(version, code, request_id, groups, payload)| WMsg { version, code, request_id, groups, payload })
-        .boxed()
+    let plain = (any::<u16>(), any::<u16>(), any::<u32>(), count(0, 3, 6).prop_flat_map(move |n| vec(w_group(max_depth), n)), payload()).prop_map(|(version, code, request_id, groups, payload)| WMsg { version, code, request_id, groups, payload });
+    // 4 %: a message holding one wide attribute
+    let wide = (any::<u16>(), any::<u16>(), any::<u32>(), w_group(1), w_wide_attr(), group_tag(), payload()).prop_map(|(version, code, request_id, mut g, wide, tag, payload)| {
+        g.attrs.retain(|a| a.name != wide.name);
+        g.attrs.push(wide);
+        g.tag = tag;
+        WMsg { version, code, request_id, groups: vec![g], payload }
+    });
+    prop_oneof![24 => plain, 1 => wide].boxed()
 }
 
 /// Small wire trees (few short attributes): for exhaustive per-byte enumerations (cuts, faults,
